@@ -178,7 +178,7 @@ def g_dtcwt_forward(J, o_dim=2, ri_dim=-1, masks='symbolic', as_names=True, mode
         skc = [bool(ctx().decide(b)) if isz(b) else b for b in sk]
         incc = [bool(ctx().decide(b)) if isz(b) else b for b in inc]
         lows, highs = ref_forward(Interp(), rs, x, bi, qs, J, skc, o_dim, ri_dim, mode)
-        return out, lows, highs, skc, incc, rc, rs
+        return out, lows, highs, skc, incc, rc, rs, (self, x)
     obs = []
     info = {'paths': 0}
     for k, (c, res) in enumerate(explore(run, BASE, 4000)):
@@ -190,7 +190,8 @@ def g_dtcwt_forward(J, o_dim=2, ri_dim=-1, masks='symbolic', as_names=True, mode
         if res[0] == 'raise':
             obs.append(Ob(pid + '/unexpected-raise', 'POST', 'refuted', 'path', 0, {'what': '%s: %s' % (res[1].kind, res[1].msg), 'model': {}}))
             continue
-        out, lows, highs, skc, incc, rc, rs = res[1]
+        out, lows, highs, skc, incc, rc, rs, owned = res[1]
+        obs += verify.frame_obs(pid, c, owned)
         obs += compare_records(pid, rc, rs, c.pc)
         ok = isinstance(out, tuple) and len(out) == 2 and isinstance(out[1], list) and len(out[1]) == J
         obs.append(Ob(pid + '/POST[(yl, list of J band-pass levels)]', 'POST', 'proved' if ok else 'refuted', 'structural', 0))
@@ -330,7 +331,7 @@ def g_dtcwt_inverse(J, o_dim=2, ri_dim=-1, absent='symbolic', as_names=True, mod
             want = ('ret', ref_inverse(Interp(), rs, low, hs, bi, qs, o_dim, ri_dim, mode, shapes=list(zip(hj, wj))))
         except Raised as r:
             want = ('raise', r)
-        return got, want, rc, rs
+        return got, want, rc, rs, (self, low, hs)
     obs = []
     info = {'paths': 0}
     for k, (c, res) in enumerate(explore(run, BASE, 6000)):
@@ -342,7 +343,8 @@ def g_dtcwt_inverse(J, o_dim=2, ri_dim=-1, absent='symbolic', as_names=True, mod
         if res[0] == 'raise':
             obs.append(Ob(pid + '/unexpected-raise', 'POST', 'refuted', 'path', 0, {'what': str(res[1]), 'model': {}}))
             continue
-        got, want, rc, rs = res[1]
+        got, want, rc, rs, owned = res[1]
+        obs += verify.frame_obs(pid, c, owned)
         if got[0] == 'raise' or want[0] == 'raise':
             ok = got[0] == want[0]
             obs.append(Ob(pid + '/raises-iff-reference-convention-raises', 'POST', 'proved' if ok else 'refuted', 'path', 0,
